@@ -438,6 +438,8 @@ def zero_entry_dicts(ctx, rng):
              "%s_to_%s" % (n, other): lambda: getattr(U, "%s_to_%s" % (n, other))(D),
              "approximate_%s_extrema" % n: lambda: getattr(U, "approximate_%s_extrema" % n)(D),
              "anneal_%s" % n: lambda: getattr(S, "anneal_%s" % n)(D, num_anneals=2, anneal_duration=5, seed=1, temperature_range=(2, 1)),
+             "anneal_%s(default-schedule)" % n: lambda: getattr(S, "anneal_%s" % n)(D, num_anneals=1, anneal_duration=4, seed=1),
+             "anneal_temperature_range": lambda: S.anneal_temperature_range(D, spin=(kind == "spin")),
              "subvalue": lambda: U.subvalue({labs[0]: 1}, D),
              "subgraph": lambda: U.subgraph(D, set(labs[:1])),
              "normalize": lambda: U.normalize(D),
